@@ -93,6 +93,10 @@ pub struct CrashScenario {
     /// whose protection can never be changed
     #[serde(default)]
     pub edge_off: u64,
+    /// the counted `fake!` pairs of every lifetime are built one lifetime ahead (a fixture that
+    /// prepares its fakes before the previous test body has finished) and only installed later
+    #[serde(default)]
+    pub prepare_ahead: bool,
     pub lifetimes: Vec<CrLifetime>,
     pub classes: Vec<String>,
 }
@@ -106,6 +110,10 @@ pub fn generate(profile: &str, seed: u64, index: u64) -> CrashScenario {
     let n_l = if rng.chance(1, 10) { 20 + rng.below(31) as usize } else { 1 + rng.below(6) as usize };
     let mut classes = Vec::new();
     let mut lifetimes = Vec::new();
+    let prepare_ahead = rng.chance(1, 4);
+    if prepare_ahead {
+        classes.push("counted-pairs-prepared-a-lifetime-ahead".into());
+    }
     let edge_off = if rng.chance(1, 3) { 6 + rng.below(6) } else { 0 };
     if edge_off > 0 {
         classes.push("edge-function-before-immutable-page".into());
@@ -239,7 +247,7 @@ pub fn generate(profile: &str, seed: u64, index: u64) -> CrashScenario {
     classes.push(format!("lifetimes-{}", if n_l > 6 { "many" } else { "few" }));
     classes.sort();
     classes.dedup();
-    CrashScenario { engine: "N".into(), family: "crash".into(), profile: profile.into(), variant: "x86_64-linux-native".into(), seed, index, edge_off, lifetimes, classes }
+    CrashScenario { engine: "N".into(), family: "crash".into(), profile: profile.into(), variant: "x86_64-linux-native".into(), seed, index, edge_off, prepare_ahead, lifetimes, classes }
 }
 
 fn panic_msg(p: &Box<dyn std::any::Any + Send>) -> String {
@@ -350,6 +358,7 @@ pub fn execute(sc: &CrashScenario, sh: &Shared) -> Value {
     let mut probes: std::collections::BTreeMap<String, u64> = Default::default();
     let mut steps_done = 0u64;
     let mut lock_was_poisoned = false;
+    let mut prepared: [Option<(FuncPtr, CallCountVerifier)>; 3] = [None, None, None];
     for (li, lt) in sc.lifetimes.iter().enumerate() {
         unsafe { libc::alarm(60) };
         sh.note(PH_OTHER, li as u64, 0, 0);
@@ -365,6 +374,33 @@ pub fn execute(sc: &CrashScenario, sh: &Shared) -> Value {
         let mut d_cnt: Option<(usize, usize)> = None;
         let mut e_cnt: Option<(usize, usize)> = None;
         let mut expect_panic: Option<String> = None; // description of the crash we expect
+        // pairs for the NEXT lifetime, evaluated now (their `times` is read at evaluation)
+        let mut prep_next: [Option<(FuncPtr, CallCountVerifier)>; 3] = [None, None, None];
+        if sc.prepare_ahead {
+            if let Some(nl) = sc.lifetimes.get(li + 1) {
+                for s in &nl.steps {
+                    match s.what.as_str() {
+                        "install_a_counted" if prep_next[0].is_none() => {
+                            N_CA.store(s.n, Ordering::SeqCst);
+                            prep_next[0] = Some(site_a());
+                        }
+                        "install_d_counted" if prep_next[1].is_none() => {
+                            N_CD.store(s.n, Ordering::SeqCst);
+                            prep_next[1] = Some(site_d());
+                        }
+                        "install_e_counted" if prep_next[2].is_none() => {
+                            N_CE.store(s.n, Ordering::SeqCst);
+                            prep_next[2] = Some(site_e());
+                        }
+                        _ => {}
+                    }
+                }
+                if prep_next.iter().any(|p| p.is_some()) {
+                    *probes.entry("counted_pair_evaluated_a_lifetime_ahead".into()).or_insert(0) += 1;
+                }
+            }
+        }
+        let mut prep_now = std::mem::replace(&mut prepared, prep_next);
         let panics_before = crate::count::PANICS.load(Ordering::SeqCst);
         let body = catch_unwind(AssertUnwindSafe(|| {
             let mut inj = InjectorPP::new();
@@ -378,7 +414,7 @@ pub fn execute(sc: &CrashScenario, sh: &Shared) -> Value {
                     }
                     "install_a_counted" => {
                         N_CA.store(s.n, Ordering::SeqCst);
-                        inj.when_called(injectorpp::func!(fn (cr_a)(u32) -> u32)).will_execute(site_a());
+                        inj.when_called(injectorpp::func!(fn (cr_a)(u32) -> u32)).will_execute(prep_now[0].take().unwrap_or_else(site_a));
                         a_fake = Some(("counted", s.n, 0));
                         a_exp = Some((s.n, 0));
                     }
@@ -388,12 +424,12 @@ pub fn execute(sc: &CrashScenario, sh: &Shared) -> Value {
                     }
                     "install_d_counted" => {
                         N_CD.store(s.n, Ordering::SeqCst);
-                        inj.when_called(injectorpp::func!(fn (cr_d)(u32))).will_execute(site_d());
+                        inj.when_called(injectorpp::func!(fn (cr_d)(u32))).will_execute(prep_now[1].take().unwrap_or_else(site_d));
                         d_cnt = Some((s.n, 0));
                     }
                     "install_e_counted" => {
                         N_CE.store(s.n, Ordering::SeqCst);
-                        inj.when_called(injectorpp::func!(fn (cr_e)(u32) -> u32)).will_execute(site_e());
+                        inj.when_called(injectorpp::func!(fn (cr_e)(u32) -> u32)).will_execute(prep_now[2].take().unwrap_or_else(site_e));
                         e_cnt = Some((s.n, 0));
                     }
                     "install_edge" if sc.edge_off > 0 => {
@@ -542,6 +578,12 @@ pub fn execute(sc: &CrashScenario, sh: &Shared) -> Value {
         }));
         interpose::arm(false);
         interpose::set_faults(Faults::default());
+        // a prepared pair that was never installed is simply let go (its verifier must not judge)
+        for p in prep_now.iter_mut() {
+            if let Some(x) = p.take() {
+                std::mem::forget(x);
+            }
+        }
         let panics_here = crate::count::PANICS.load(Ordering::SeqCst) - panics_before;
         // caught refusals inside the body each raised one panic too
         let caught_refusals = lt.steps.iter().filter(|s| s.what == "refused" && s.caught).count();
@@ -623,6 +665,11 @@ pub fn execute(sc: &CrashScenario, sh: &Shared) -> Value {
         }
         if !viol.borrow().is_empty() {
             break;
+        }
+    }
+    for p in prepared.iter_mut() {
+        if let Some(x) = p.take() {
+            std::mem::forget(x);
         }
     }
     unsafe { libc::alarm(0) };
